@@ -310,7 +310,15 @@ pub fn run(ctx: &Ctx) -> Report {
     let tiers: Vec<Vec<&str>> = vec![vec![announce, "http://b.example/2"], vec!["http://b.example/2", "http://c.example/a+b"]];
     let mut files = vec![("length", B::Int(3))];
     let _ = &mut files;
-    let info = B::dict(vec![("name", B::s(&name)), ("piece length", B::Int(16384)), ("pieces", B::Bytes(vec![7; 20])), ("length", B::Int(3))]);
+    let mut fields = vec![("name", B::s(&name)), ("piece length", B::Int(16384)), ("pieces", B::Bytes(vec![7; 20])), ("length", B::Int(3))];
+    // (what else the info dictionary says - private, a source - changes the infohash and nothing else of the link)
+    match rng.below(4) {
+      0 => fields.push(("private", B::Int(1))),
+      1 => fields.extend([("private", B::Int(1)), ("source", B::s("SRC"))]),
+      2 => fields.push(("private", B::Int(0))),
+      _ => {}
+    }
+    let info = B::dict(fields);
     let torrent = B::dict(vec![("info", info.clone()), ("announce", B::s(announce)), ("announce-list", B::List(tiers.iter().map(|t| B::List(t.iter().map(|u| B::s(u)).collect())).collect()))]).encode();
     let sb = Sandbox::new(&ctx.work, "c10");
     sb.write("t.torrent", &torrent);
@@ -427,15 +435,18 @@ pub fn run(ctx: &Ctx) -> Report {
       other => report.fail("property", "create-link", case, format!("exit {:?}, link {uri:?}, own parser {:?}: expected one `tr` per distinct tracker, in first-appearance order", out.code, other.map(|r| r.map(|p| p.trackers)))),
     }
   }
-  for dry in [false, true] {
+  for (dry, private) in [(false, false), (true, false), (false, true), (true, true)] {
     let sb = Sandbox::new(&ctx.work, "c10d");
     sb.write("foo", b"abc");
     let mut args = vec!["torrent", "create", "--input", "foo", "--announce", "http://t.example/a?x=1&y=2", "--link", "--peer", "1.2.3.4:5", "--no-creation-date"];
     if dry {
       args.push("--dry-run");
     }
+    if private {
+      args.push("--private");
+    }
     let out = Cmd::new(&ctx.imdl, &args).cwd(&sb.root).run();
-    let case = json!({"cli": "torrent create --link", "dry_run": dry});
+    let case = json!({"cli": "torrent create --link", "dry_run": dry, "private": private});
     report.case(Some(fnv_str(&case.to_string())));
     report.hit("cli:create-link");
     let so = out.stdout_s();
